@@ -1,6 +1,6 @@
 (* C04 - Episodes end exactly when all work is delivered and report the true makespan. *)
 From Coq Require Import List ZArith Bool.
-From JSL Require Import Base.Res SM.Types SM.Util SM.Handler SM.Step SM.Middleware SM.Inv SM.Example SMP.Decline SMP.Clock SMP.LiftSide SMP.OutputDone SMP.StepInv SMP.Reflect SMP.LiftProv SMP.ProvBatch Gen.Kernels Gen.KernelsEq.
+From JSL Require Import Base.Res SM.Types SM.Util SM.Handler SM.Step SM.Middleware SM.Inv SM.Example SMP.Decline SMP.Clock SMP.LiftSide SMP.OutputDone SMP.StepInv SMP.Reflect SMP.LiftProv SMP.ProvBatch Gen.Kernels Gen.KernelsEq SMP.Makespan.
 Import ListNotations.
 
 Theorem C04_done_raises :
@@ -116,3 +116,18 @@ Example C04_terminal_reachable :
   exists r m, runG ex_sigma ex_inst side2 100 ex_state 3%Z true [1;1;1;1;1;1;1;1;1;1]%Z = Some (r, m)
               /\ all_in_output ex_inst (r_x r) = true /\ r_offers r = [].
 Proof. vm_compute. eexists; eexists; repeat split. Qed.
+
+(* "On termination the reported time and the makespan in the info dictionary equal the latest operation completion time of the schedule":
+   in every result reachable by any run of any instance (no hypothesis at all: any initial state, oracle, fuel, actions) in which all work is
+   delivered, no recorded completion lies after the clock and - if anything was processed - a DONE operation ends exactly at it; the
+   environment's makespan is that clock (C04_makespan_is_clock). state.step sets the clock to the maximum DONE end when it finds all work
+   delivered (also BACK, when an AGV's delivery trip ran past the last completion); every other way to a result keeps the state. *)
+Theorem C04_clock_at_termination_is_the_latest_completion :
+  forall (sigma : oracle) (i : inst) (fuel : nat) (x0 : state) (joker0 : Z) (ta : bool) (r : result) (m : mw),
+    reach sigma i fuel x0 joker0 ta r m -> all_in_output i (r_x r) = true ->
+    (forall jb o e, In jb (s_jobs (r_x r)) -> In o (j_ops jb) -> o_end o = Time e -> (e <= s_now (r_x r))%Z)
+    /\ ((exists jb o, In jb (s_jobs (r_x r)) /\ In o (j_ops jb)) ->
+        exists jb o, In jb (s_jobs (r_x r)) /\ In o (j_ops jb) /\ o_st o = ODone /\ o_end o = Time (s_now (r_x r))).
+Proof. intros. eapply terminated_clock_bounds_all_ends; eauto. Qed.
+Print Assumptions C04_clock_at_termination_is_the_latest_completion.
+
